@@ -248,4 +248,26 @@ def check(ctx: Ctx) -> str:
     s = ast.unparse(pc.node)
     ctx.check("self.stream.look().test('name:context')" in s and "next(self.stream).value == 'with'" in s and "node.with_context = default" in s, "parse_import_context", "parser:Parser.parse_import_context", "with/without context", "with/without must be followed by `context`; the flag is true exactly for `with`", pc.loc())
     new_context_rule(ctx, "R7")
+
+    ctx.rule("R8", "the locals handed to an include / import-with-context are the *visible* bindings: Symbols.dump_stores walks the scopes from the current one outwards, the first (innermost) scope that stores a name wins, and the reference is the one the current scope resolves the name to")
+    ds = repo.func("idtracking:Symbols.dump_stores")
+    starts = [a for a in ast.walk(ds.node) if isinstance(a, (ast.Assign, ast.AnnAssign)) and a.value is not None and ast.unparse(a.value) == "self" and isinstance((a.targets[0] if isinstance(a, ast.Assign) else a.target), ast.Name)]
+    wl = [w for w in ast.walk(ds.node) if isinstance(w, ast.While)]
+    ok = len(starts) == 1 and len(wl) == 1
+    detail = {}
+    if ok:
+        cur = (starts[0].targets[0] if isinstance(starts[0], ast.Assign) else starts[0].target).id  # type: ignore[attr-defined]
+        adv = [a for a in ast.walk(wl[0]) if isinstance(a, ast.Assign) and ast.unparse(a.targets[0]) == cur and ast.unparse(a.value) == f"{cur}.parent"]
+        stores_ = [a for a in ast.walk(wl[0]) if isinstance(a, ast.Assign) and isinstance(a.targets[0], ast.Subscript) and isinstance(a.targets[0].value, ast.Name)]
+        ok = ast.unparse(wl[0].test) == f"{cur} is not None" and len(adv) == 1 and len(stores_) == 1
+        if ok:
+            rvn = stores_[0].targets[0].value.id  # type: ignore[attr-defined]
+            key = ast.unparse(stores_[0].targets[0].slice)  # type: ignore[attr-defined]
+            at_ = astq.guard_atoms(ds.node, stores_[0])
+            detail = {"guards": at_, "value": ast.unparse(stores_[0].value)}
+            loops_ = [l_ for l_ in ast.walk(wl[0]) if isinstance(l_, ast.For) and f"{cur}.stores" in ast.unparse(l_.iter)]
+            ok = (f"{key} in {rvn}", False) in at_ and ast.unparse(stores_[0].value) == f"self.find_ref({key})" and len(loops_) == 1 and all(a_[0] in (f"{key} in {rvn}", f"{cur} is None") for a_ in at_)
+    ctx.check(ok, "dump_stores:innermost-first", "idtracking:Symbols.dump_stores", "visible bindings",
+              f"dump_stores must start at `self`, follow .parent, and record `rv[name] = self.find_ref(name)` only for names not recorded yet ({detail}): otherwise an include inside a nested scope receives the shadowed outer value of a name (a top-level `set` instead of the `with` / loop variable that hides it)",
+              ds.loc(), detail=detail)
     return __doc__ or ""
